@@ -172,6 +172,12 @@ pub mod c19 {
         let max_k = ctx.tier.pick(400, 5_000);
         let strat = solve_case_strategy(GenParams::default_small(), ConfigGen { max_width: 3, ..Default::default() });
         ctx.pt_run("seq-consecutive-polls", cases, strat, |c| serde_json::to_value(c).unwrap(), |c, obs| eval_cutoffs(c, obs, "C19", max_k));
+        // re-convergent instances with the duplicate-free fringe (in-place updates of queued entries): the
+        // shape needed by seeded change C19-S1, which the uniform part above did not reach
+        let cases = ctx.tier.pick(2_500, 15_000);
+        let p = GenParams { n: (5, 8), b: (2, 4), nd: (2, 3), embed: None, allow_irrelevance: false, allow_potential: true };
+        let strat = solve_case_strategy(p, ConfigGen { max_width: 3, fringe: Some(vec![1]), ..Default::default() });
+        ctx.pt_run("seq-consecutive-polls-nodup-reconvergent", cases, strat, |c| serde_json::to_value(c).unwrap(), |c, obs| eval_cutoffs(c, obs, "C19", max_k));
         ctx.stats.exhaustive.insert("seq-consecutive-polls: all consecutive poll indices 1..=K+1 of each generated case".into(), true);
     }
     fn replay(_part: &str, case: &Value, _known: &KnownFindings) -> Verdict {
